@@ -55,6 +55,14 @@ LEVEL_TEXT = (
     "positive unit constants: 0 < a < b, exponent p = ln(b/a)/ln(npt) >= 2, first point a, last point b, points a(x+1)^p strictly "
     "increasing, weights p a (x+1)^(p-1) positive (defaultRgrid_clause). The defaults of the three classmethod signatures are generated "
     "definitions (signature_defaults_pinned, fromPruned_default_sectors), the statements of save are pinned as text (save_site_pinned). "
+    "Round 6, over the generated text: the statements of the three preludes that re-bind aim_weights are generated definitions (fromX_aim) equal "
+    "to the hand model, so every constructor hands a callable, an array or any other non-None object on unchanged and uses BeckeWeights(order=3) "
+    "exactly for None (gen_aim_eq_model, aim_passed_through_every_route); after the generated __init__ with any aim array — no sign, range or "
+    "normalisation assumption, no order on the value type — aim_weights is the given array, atweights the concatenation and weights their "
+    "entry-by-entry product, and with a callable aim_weights is what it returned for this grid's (points, atcoords, atnums, indices) "
+    "(gen_init_weights_any_aim_array / _callable; element-wise post-processing such as np.clip and a branch on len(atgrids) inside the "
+    "aim-weights dispatch are carried by the translator, so such a rewrite changes the generated definition instead of being refused); a "
+    "one-atom molecule is the general formula at n = 1, the callable evaluated on the atom's points (gen_init_one_atom). "
     "Exploration only (labelled, no theorem): the end-to-end clause — preset grids with the default radial grids integrate "
     "sums of normalised atom-centred Gaussians (exponents 0.3-30, 1-5 atoms >= 1.2 bohr apart) to the total charge within "
     "1 % — is sampled on the implementation, over the (preset, element) combinations for which a preset grid with the default "
@@ -68,7 +76,7 @@ TECHNIQUE = ("[round 3: interpolate / interpolate_low, _generate_default_rgrid a
              "implementation on small arrays; constructor-built vs hand-built grids bit for bit) + sampled end-to-end "
              "integration (exploration)")
 GEN = ["molgrid"]
-LEAN_MODULES = ["GridVerif.Props.C07", "GridVerif.Props.C07.Interp", "GridVerif.Props.C07.DefaultRgrid", "GridVerif.Props.C07.Defaults"]
+LEAN_MODULES = ["GridVerif.Props.C07", "GridVerif.Props.C07.Interp", "GridVerif.Props.C07.DefaultRgrid", "GridVerif.Props.C07.Defaults", "GridVerif.Props.C07.GenInit", "GridVerif.Props.C07.AimRoute"]
 THEOREMS = [
     "GridVerif.C07.molgrid_shape",
     "GridVerif.C07.molgrid_slices",
@@ -118,6 +126,12 @@ THEOREMS = [
     "GridVerif.C07.signature_defaults_pinned",
     "GridVerif.C07.fromPruned_default_sectors",
     "GridVerif.C07.save_site_pinned",
+    # round 6: clauses over the generated definitions that only the generators guarded before
+    "GridVerif.C07.gen_aim_eq_model",
+    "GridVerif.C07.aim_passed_through_every_route",
+    "GridVerif.C07.gen_init_weights_any_aim_array",
+    "GridVerif.C07.gen_init_weights_any_aim_callable",
+    "GridVerif.C07.gen_init_one_atom",
 ]
 RULE = (
     "correspondence (a) model vs implementation on random small per-atom arrays (1-4 atoms, 0-4 points each, "
@@ -989,6 +1003,7 @@ def corr(ctx: Ctx):
         ("interp", lambda: c07_ext.corr_interp(ctx, mg)),
         ("defaults", lambda: c07_ext.corr_defaults(ctx, mg, ag, bk, od)),
         ("default-rgrid", lambda: c07_ext.corr_default_rgrid(ctx, mg)),
+        ("aim-route", lambda: c07_ext.corr_aim_route(ctx, mg, ag, bk, od)),
     ]
     for name, fn in parts:
         _part(ctx, "corr", name, fn)
